@@ -243,7 +243,7 @@ int main(void) {
     if (pid == 0) {
       int fd = open("/dev/null", 1);
       if (fd >= 0) dup2(fd, 2);          /* "Fatal error:Runqueue overflow" goes nowhere */
-      alarm(20);
+      alarm(10);
       run_case();
       _exit(0);
     }
